@@ -422,7 +422,7 @@ def ts_env(rng):
 def egg_case(rng, n=None):
     n = rng.randrange(0, 9) if n is None else n
     env = ts_env(rng)
-    dt = rng.choice([60.0, 600.0, 3600.0])
+    dt = rng.choice([60.0, 600.0, 3600.0, 1000.0, 7000.0])
     z = np.array([rng.choice([0.0, 1e-9, 0.5, 10.0, 150.0, 199.0, 199.999, rng.uniform(0, 199.9)]) for _ in range(n)])
     return dict(kind="egg", env=env, dt=dt, D=rng.choice([0.0, 1e-4, 1e-2, 1.0]),
                 diam=rng.choice([0.0011, 0.0014, 0.003, 0.0005]),
@@ -469,7 +469,7 @@ def egg_run(case, seed, drv=None, inject=None, ibm=None, state=None):
 def lice_case(rng, n=None):
     n = rng.randrange(0, 9) if n is None else n
     env = ts_env(rng)
-    dt = rng.choice([60.0, 600.0, 3600.0])
+    dt = rng.choice([60.0, 600.0, 3600.0, 1000.0, 7000.0, 100000.0])
     hour = rng.choice([0, 3, 6, 9, 12, 15, 18, 21])
     ts = np.datetime64("2020-%02d-15T%02d:00:00" % (rng.choice([1, 3, 6, 9, 12]), hour))
     z = np.array([rng.choice([0.0, 1e-9, 0.5, 5.0, 19.0, 19.999, rng.uniform(0, 19.9)]) for _ in range(n)])
@@ -553,7 +553,7 @@ def larvae_case(rng, n=None, module=None):
     n = rng.randrange(0, 9) if n is None else n
     env = ts_env(rng)
     module = module or rng.choice(["larvae", "saithe"])
-    dt = rng.choice([60.0, 600.0, 3600.0])
+    dt = rng.choice([60.0, 600.0, 3600.0, 1000.0, 7000.0])
     hour = rng.choice([0, 3, 6, 9, 12, 15, 18, 21])
     ts = np.datetime64("2020-%02d-15T%02d:00:00" % (rng.choice([1, 3, 6, 9, 12]), hour))
     if module == "saithe":
@@ -636,7 +636,7 @@ def sandeel_case(rng, n=None):
     n = rng.randrange(0, 9) if n is None else n
     h0 = rng.choice([5.0, 40.0, 250.0])
     env = LinEnv(h0=h0, hx=rng.choice([0.0, h0 / 100]))
-    dt = rng.choice([60.0, 600.0, 3600.0])
+    dt = rng.choice([60.0, 600.0, 3600.0, 1000.0, 7000.0])
     maxd = rng.choice([3.0, 30.0, 1000.0])
     x = np.array([rng.uniform(2, 19) for _ in range(n)])
     y = np.array([rng.uniform(2, 19) for _ in range(n)])
@@ -743,7 +743,7 @@ def eel_run(case, seed, drv=None, inject=None, ibm=None, state=None):
 def shrimp_case(rng, n=None):
     n = rng.randrange(0, 9) if n is None else n
     env = ts_env(rng)
-    dt = rng.choice([60.0, 600.0, 3600.0])
+    dt = rng.choice([60.0, 600.0, 3600.0, 1000.0, 7000.0, 100000.0])
     hour = rng.choice([0, 3, 6, 9, 12, 15, 18, 21])
     ts = np.datetime64("2020-%02d-15T%02d:00:00" % (rng.choice([1, 3, 6, 9, 12]), hour))
     vm = [rng.choice([0.0, 1e-4, 1e-2]) for _ in range(5)]
